@@ -16,7 +16,8 @@ META = {
     "partial": True,
     "level_text": "Loop contracts with termination variants on streams of ANY length and content: read_null_terminated_string (C06 "
                   "unit), the ARSCHeader dummy-data skip loop, the DebugInfoItem opcode loop, the HiddenApiClassDataItem offsets "
-                  "loop (variant: bytes left), and the linear-sweep loop (C02 unit, variant max_idx - idx). Proof (all contents of short inputs): the loops named in the property are executed on streams of symbolic bytes "
+                  "loop (variant: bytes left), the linear-sweep loop (C02 unit, variant max_idx - idx) and the chunk loop of AXMLParser._do_next (C26 unit chunk_loop_terminates, "
+                  "variant bytes left, nested loops under their own contracts). Proof (all contents of short inputs): the loops named in the property are executed on streams of symbolic bytes "
                   "and every path is proved to end (result or error): read_null_terminated_string with no NUL at all (0..257 bytes), "
                   "the ARSCHeader dummy-data skip loop (8..14 bytes, every content), the DebugInfoItem opcode loop (0..5 bytes). The "
                   "sweep loop's progress (positive length, resumes at offset+length) is C02's obligation. Bounded: the four whole "
